@@ -73,6 +73,12 @@ def call_op(f, op):
             v = "info:%s:%d:%d" % (hx(i.name), i.is_dir, 0 if i.is_dir else i.size)
         elif name == "readbytes":
             v = "bytes:" + hx(f.readbytes(op[1]))
+        elif name == "scandir":
+            v = "infos:" + vlib.hxlist(sorted("%s/%d" % (i.name, i.is_dir) for i in f.scandir(op[1])))
+        elif name == "filterdir":
+            v = "infos:" + vlib.hxlist(sorted("%s/%d" % (i.name, i.is_dir) for i in f.filterdir(op[1])))
+        elif name == "walkfiles":
+            v = "names:" + vlib.hxlist(sorted(f.walk.files(op[1])))
         elif name == "readtext":
             v = "text:" + hx(f.readtext(op[1]))
         elif name == "writetext":
@@ -304,7 +310,7 @@ _SHAPES = {}
 
 
 def load_shapes(drv):
-    methods = sorted({"readtext", "writetext", "exists", "isdir", "isfile", "listdir", "getsize", "gettype", "isempty", "getinfo", "readbytes",
+    methods = sorted({"scandir", "filterdir", "readtext", "writetext", "exists", "isdir", "isfile", "listdir", "getsize", "gettype", "isempty", "getinfo", "readbytes",
                       "makedir", "makedirs", "writebytes", "appendbytes", "create", "touch", "settimes", "openbin",
                       "remove", "removedir", "removetree", "move", "copy", "movedir", "copydir"})
     classes = ["MemoryFS", "OSFS", "MountFS", "MultiFS", "SubFS"]
@@ -450,6 +456,24 @@ TEXT_DIRECTED = [
 ]
 
 
+# every query that consumes `scandir` (a generator: its body runs in the consumer's thread, line by
+# line under the tracer like any other frame) or looks a child up, against every call that unlinks
+# or moves a CHILD of the directory, or the directory itself.  `scandir`, `filterdir`, `walk.files`
+# are outside the model's operation language: line level only.
+SCAN_TREE = [("D", "d"), ("F", "d/f", b"1"), ("F", "d/g", b"2"), ("D", "d/s"), ("D", "z")]
+SCAN_CONSUMERS = [("listdir", "d"), ("scandir", "d"), ("isempty", "d"), ("filterdir", "d"), ("walkfiles", "d"),
+                  ("getinfo", "d/f"), ("exists", "d/f"), ("copydir", "d", "c", True)]
+SCAN_UNLINKERS = [("remove", "d/f"), ("removedir", "d/s"), ("move", "d/f", "z/f", False), ("movedir", "d/s", "z/s", True),
+                  ("removetree", "d"), ("movedir", "d", "z/d", True)]
+# (walk.files descends: one scandir per directory, so it is only paired with calls that leave the
+# sub-directory alone)
+SCAN_DIRECTED = [("parent-child", SCAN_TREE, (q, u)) for q in SCAN_CONSUMERS for u in SCAN_UNLINKERS
+                 if not (q[0] == "walkfiles" and u[1] == "d/s")]
+MODEL_OPS = {"exists", "isdir", "isfile", "listdir", "getsize", "gettype", "isempty", "getinfo", "readbytes",
+             "makedir", "makedirs", "writebytes", "appendbytes", "create", "touch", "settimes", "openbin",
+             "remove", "removedir", "removetree", "move", "copy", "movedir", "copydir"}
+
+
 # ----------------------------------------------------------------------------- (i) model <-> code
 
 
@@ -533,10 +557,13 @@ UNLINKERS = {"remove", "removedir", "removetree", "move", "movedir"}
 
 
 def identity_matters(calls, impl):
-    """the model addresses an open file by path; skip call sets in which a non-atomic
-    writebytes/readbytes races with a call that can unlink or move that file (or an ancestor)"""
+    """the model addresses an open file / a looked-up entry by path; skip call sets in which a
+    non-atomic writebytes/readbytes — or an info reader, as long as MemoryFS.getinfo reads the entry
+    outside the lock — races with a call that can unlink or move that resource (or an ancestor)"""
+    info_split = (_SHAPES.get(("MemoryFS", "getinfo")) or ["?"])[0] != "singleLocked"
     for i, a in enumerate(calls):
-        if (a[0] == "writebytes" and not impl["writebytes"]) or (a[0] == "readbytes" and not impl["readbytes"]):
+        if (a[0] == "writebytes" and not impl["writebytes"]) or (a[0] == "readbytes" and not impl["readbytes"]) \
+                or (info_split and a[0] in ("getinfo", "getsize", "gettype")):
             for j, b in enumerate(calls):
                 if i != j and b[0] in UNLINKERS:
                     src = b[1].strip("/")
@@ -545,6 +572,12 @@ def identity_matters(calls, impl):
                         return True
                     if b[0] in ("move", "movedir") and b[2].strip("/") == tgt:
                         return True
+            if info_split and a[0] in ("getinfo", "getsize", "gettype"):
+                for j, b in enumerate(calls):
+                    # the size / name read after the lookup also sees concurrent content changes
+                    if i != j and b[0] in ("writebytes", "appendbytes", "create", "openbin", "copy", "move", "touch"):
+                        if a[1].strip("/") in (b[1].strip("/"), (b[2].strip("/") if b[0] in ("copy", "move") else None)):
+                            return True
     return False
 
 
@@ -699,7 +732,8 @@ def explore(rep, kind, rel, tree, calls, bound, level, budget, rng=None, label="
         if outcome not in seen_out:
             seen_out.add(outcome)
             rep.nontrivial("ii", kind, repr(calls), repr(outcome))
-        ok = status == "ok" and (res, snap) in seqs
+        leak = status == "ok" and any(x[0] == "err" and x[1].startswith("Leak:") for x in res)
+        ok = status == "ok" and (res, snap) in seqs and not leak
         if not ok:
             # confirm: the same choices must give the same outcome (guards against a disturbed
             # environment, e.g. the scratch directory of the OSFS backend removed by someone else)
@@ -717,6 +751,8 @@ def explore(rep, kind, rel, tree, calls, bound, level, budget, rng=None, label="
                                     "tree": tree_json(k[1]) if k[1] is not None else None} for k, o in seqs.items()],
                     "switches": r.switch_log[:40]}
             what = "deadlock" if status == "deadlock" else "results %s, final tree %s" % (res, snap)
+            if leak:
+                what += " (an exception class outside fs.errors: a violation by itself)"
             fired = report(rep, case, "%s %s on %s: schedule with %d preemption(s) gives %s — no sequential order of the "
                            "calls does that" % (rel, calls, kind, preemptions(pol.taken), what), True,
                            signature(kind, calls, status))
@@ -909,6 +945,11 @@ def run(rep, tier, seed, deep=False):
 
         # ---- directed cases: model interleavings, then line-level exploration on every backend
         model_correspondence(rep, drv, impl, DIRECTED, "directed")
+        scan_model = [x for x in SCAN_DIRECTED if all(c[0] in MODEL_OPS for c in x[2])]
+        model_correspondence(rep, drv, impl, scan_model, "scan-consumers")
+        for rel, tree, calls in SCAN_DIRECTED:
+            explore(rep, "mem", rel, tree, calls, bound=2 if thorough else 1, level=1 if thorough else 0,
+                    budget=400 if thorough else 36, rng=rng, label="/scan-consumers")
         for rel, tree, calls in DIRECTED + TEXT_DIRECTED:
             for kind in KINDS:
                 t = shift_tree(kind, tree)
@@ -918,7 +959,7 @@ def run(rep, tier, seed, deep=False):
                         label="/directed")
 
         # ---- (i) model <-> code on the whole pair matrix (MemoryFS)
-        n_i = len(sets) if thorough else 500
+        n_i = len(sets) if thorough else 420
         chosen = sets if n_i >= len(sets) else rng.sample(sets, n_i)
         model_correspondence(rep, drv, impl, chosen, "matrix")
 
@@ -927,8 +968,8 @@ def run(rep, tier, seed, deep=False):
             plan = [("mem", 220, 2, 1, 200), ("sub2", 50, 1, 1, 100), ("mount", 50, 1, 1, 100),
                     ("multi", 50, 1, 1, 100), ("os", 40, 1, 1, 100)]
         else:
-            plan = [("mem", 45, 1, 0, 50), ("sub2", 9, 1, 0, 40), ("mount", 9, 1, 0, 40), ("multi", 9, 1, 0, 40),
-                    ("os", 8, 1, 0, 40)]
+            plan = [("mem", 30, 1, 0, 50), ("sub2", 8, 1, 0, 40), ("mount", 8, 1, 0, 40), ("multi", 8, 1, 0, 40),
+                    ("os", 7, 1, 0, 40)]
         for kind, n_sets, bound, level, budget in plan:
             for rel, tree, calls in rng.sample(sets, min(n_sets, len(sets))):
                 explore(rep, kind, rel, shift_tree(kind, tree), shift_calls(kind, calls), bound, level, budget, rng=rng)
